@@ -625,12 +625,38 @@ def run_plan(plan, sched_seed=None, sched_replay=None):
         elif pre_kex and plan['strict'] and ended:
             sim.probes['strict_fatal'] += 1
 
-    if role == 'client' and out['client_auth_completed'] and \
-            not out['requests_outstanding'] and \
-            not (out.get('peer') is not None and out['peer'].saw_50):
-        world.violation('success-without-request',
-                        'client reported auth_completed although the server '
-                        'side never saw a password request')
+    if role == 'client' and out['client_auth_completed']:
+        # by the client's own packet log: when USERAUTH_SUCCESS arrived, had
+        # it sent a USERAUTH_REQUEST that no FAILURE had answered yet?  (What
+        # the peer had *seen* by then does not matter: a SUCCESS injected
+        # right after SERVICE_ACCEPT can cross the client's "none" request on
+        # the wire, and accepting it is what RFC 4252 allows.)
+        pending = None
+
+        for label, pkts in sorted(sim.pkts.items()):
+            conn_obj = sim.conns.get(label)
+
+            if conn_obj is None or not conn_obj.is_client():
+                continue
+
+            n = 0
+
+            for d, t, *_rest in pkts:
+                if d == 'S' and t == 50:
+                    n += 1
+                elif d == 'R' and t == 51:
+                    n = max(0, n - 1)
+                elif d == 'R' and t == 52:
+                    pending = n
+                    break
+
+        if pending == 0:
+            world.violation('success-without-request',
+                            'client reported auth_completed although no '
+                            'request of its own was outstanding when '
+                            'USERAUTH_SUCCESS arrived')
+        elif pending:
+            sim.probes['success_with_request_outstanding'] += 1
 
     if role == 'server' and out['auth_user'] and \
             ('alice', 'pw-alice') not in out['pw_checks']:
